@@ -64,8 +64,13 @@ def gen_case(rng: Rng, i: int, tier: str):
     chain = gen.gen_chain(r, allow_aes=False, force_aes=False)
     if chain is not None:
         chain = [f for f in chain if f["id"] != "AES"] or None
-    return {"base": base, "calls": calls, "chain": chain, "header": r.pick(["raw", "enc"]), "close": r.pick(["close", "ctx", "ctx_propagate"]),
+    case = {"base": base, "calls": calls, "chain": chain, "header": r.pick(["raw", "enc"]), "close": r.pick(["close", "ctx", "ctx_propagate"]),
             "target": r.pick(["path", "stream"]), "knobs": knobs, "rng": r.randrange(1 << 30)}
+    # the dereference option changes how writeall treats errors met on the walk; it is only varied for trees without links,
+    # where it changes nothing else
+    if not any(e["kind"] == "link" for c in calls if c["op"] == "writeall" for e in c["tree"]) and rng.sub("deref").chance(0.5):
+        case["dereference"] = True
+    return case
 
 
 def fault_list(case):
@@ -113,6 +118,7 @@ def _one_run(case, fi, fault, res):
     pre_consumption = fault["kind"] in ("missing", "lstat", "open", "arcname_rejected", "name_rejected")
     cls = {"fault": fault["kind"] + ("-" + fault["exc"] if fault.get("exc") else ""), "op": case["calls"][fi]["op"], "close": case["close"], "append": case["base"] is not None}
     cls.update(case_class(case))
+    cls["dereference"] = bool(case.get("dereference"))
     if "child" in fault:
         cls["in_tree"] = True
 
@@ -140,6 +146,8 @@ def _one_run(case, fi, fault, res):
             raw = SimRaw(fs.get(rw.SIM_PATH), readable=True, writable=True)
             target, fin = raw, raw.close
         kwargs = {}
+        if case.get("dereference"):
+            kwargs["dereference"] = True
         filters = gen.to_filters(case["chain"])
         if filters is not None:
             kwargs["filters"] = filters
